@@ -7,19 +7,21 @@
 set -u
 wt="$1"; shift
 export GOFLAGS=-mod=mod GOPROXY=off GOSUMDB=off GOTOOLCHAIN=local
+# pkg/vm/wasm tests use the fixed directory $TMPDIR/wasm/<name>: a private TMPDIR lets several confirmations run side by side
+export TMPDIR=$(mktemp -d /tmp/confirm-tmp.XXXXXX)
 cd "$wt" || exit 2
 git checkout -q -- .
 demo() { go test -vet=off -ldflags=-checklinkname=0 -count=1 "$@" >/tmp/confirm_demo.$$ 2>&1; }
 demo "$@" || { echo "NOT-CONFIRMED demo fails on clean tree"; tail -20 /tmp/confirm_demo.$$; exit 1; }
 git apply seeded_out/patch.diff || { echo "NOT-CONFIRMED patch does not apply"; exit 1; }
-trap 'cd "$wt"; git checkout -q -- .; rm -f /tmp/confirm_demo.$$' EXIT
+trap 'cd "$wt"; git checkout -q -- .; rm -rf /tmp/confirm_demo.$$ "$TMPDIR"' EXIT
 go build -ldflags=-checklinkname=0 ./... || { echo "NOT-CONFIRMED build fails"; exit 1; }
 # the pinned suite: the packages holding the 65 tests of /root/.vp/BASELINE.json,
 # run whole (some of its tests depend on earlier ones in the package); the
 # demonstration tests (all named *Seeded*) lying in a package directory are skipped
 for pkg in $(jq -r '.stable_pass[]' /root/.vp/BASELINE.json | sed 's/::.*//' | sort -u); do
   rel=./${pkg#github.com/meshplus/bitxhub/}
-  flock /tmp/confirm_seed.lock go test -vet=off -ldflags=-checklinkname=0 -count=1 -skip Seeded "$rel" >/tmp/confirm_base.$$ 2>&1 || { echo "NOT-CONFIRMED baseline suite fails in $rel"; tail -20 /tmp/confirm_base.$$; exit 1; }
+  go test -p 4 -vet=off -ldflags=-checklinkname=0 -count=1 -skip Seeded "$rel" >/tmp/confirm_base.$$ 2>&1 || { echo "NOT-CONFIRMED baseline suite fails in $rel"; tail -20 /tmp/confirm_base.$$; exit 1; }
 done
 rm -f /tmp/confirm_base.$$
 if demo "$@"; then echo "NOT-CONFIRMED demo passes with the patch"; exit 1; fi
